@@ -185,16 +185,17 @@ def check_read_int(run, rule):
         run.ob(rule, "read_int:ai=%d" % ai, ok, f, f["line"], "ai %d yields the value itself" % ai if ok else "ai %d does not return the value itself" % ai,
                nontrivial=False)
     # 24..27: locate loop, evaluate count and shifts
-    loops = [n for n in ir.walk(f["body"]) if n.get("k") == "For"]
+    loops = [n for n in ir.walk(f["body"]) if n.get("k") in ("For", "While", "Do")
+             and any(x.get("k") == "Bin" and x.get("op") == "<<" for x in ir.walk(n.get("body") or {}))]
     for ai, want in ((24, 1), (25, 2), (26, 4), (27, 8)):
         key = "read_int:ai=%d" % ai
         if len(loops) != 1:
-            run.ob(rule, key, None, f, f["line"], "expected one for loop assembling the argument")
+            run.ob(rule, key, None, f, f["line"], "expected one loop assembling the argument with a shift (found %d)" % len(loops))
             continue
         lp = loops[0]
         env = {pname: ai}
-        # is the loop reached for this ai?
-        r = minieval.run_straightline(st, dict(env), enums, stop_at=lp)
+        # is the loop reached for this ai?  (run_straightline leaves the values of the locals declared on the way in env)
+        r = minieval.run_straightline(st, env, enums, stop_at=lp)
         if r[0] != "reached" and not any(x is lp for x in ir.walk(r[1] or {})):
             if r[0] == "unknown":
                 run.ob(rule, key, None, f, lp["l"], "the argument is assembled on more than one path (a branch on run-time state precedes the loop); "
@@ -203,35 +204,34 @@ def check_read_int(run, rule):
                 run.ob(rule, key, False, f, lp["l"], "additional information %d does not reach the byte-assembly loop (%s)" % (ai, r[0]))
             continue
         try:
-            iv = None
-            ivar = None
-            for v in (lp.get("init") or {}).get("vars", []):
-                ivar = "l:%s#%s" % (v["n"], v["id"])
-                iv = minieval.ev(unwrap(v["init"]), env, enums)
-            # simulate the loop symbolically on byte positions
-            shifts = []
-            i = iv
-            guard = 0
-            while guard < 16:
-                e2 = dict(env)
-                e2[ivar] = i
-                if not minieval.ev(unwrap(lp["cond"]), e2, enums):
-                    break
-                # find the shift amount expression in the body: (... << S)
-                sh = None
-                for n in ir.walk(lp["body"]):
-                    if n.get("k") == "Bin" and n.get("op") == "<<":
-                        sh = minieval.ev(unwrap(n["rhs"]), e2, enums)
-                shifts.append(sh)
-                # apply increment
-                inc = unwrap(lp["inc"])
-                if inc.get("k") == "Un" and inc["op"] in ("post--", "pre--"):
-                    i -= 1
-                elif inc.get("k") == "Un" and inc["op"] in ("post++", "pre++"):
-                    i += 1
+            if lp["k"] == "For" and lp.get("init") is not None:
+                if lp["init"].get("k") == "Decl":
+                    for v in lp["init"].get("vars", []):
+                        env["l:%s#%s" % (v["n"], v["id"])] = minieval.ev(unwrap(v["init"]), env, enums)
                 else:
-                    raise minieval.Unknown("inc")
-                guard += 1
+                    minieval.step(unwrap(lp["init"]), env, enums)
+            # walk the loop over the counter values (finite: at most 8 rounds for a correct loop); per round record
+            # the shift amount in force where the byte is merged and apply the counter updates in statement order
+            shifts = []
+            rounds = 0
+            first = True
+            while rounds < 16:
+                if not (first and lp["k"] == "Do"):
+                    if not minieval.ev(unwrap(lp["cond"]), env, enums):
+                        break
+                first = False
+                for s_ in ir.stmts(lp["body"]):
+                    u = unwrap(s_)
+                    if u.get("k") in ("If", "Switch", "For", "While", "Do", "Break", "Continue", "Return"):
+                        raise minieval.Unknown("control flow inside the assembly loop")
+                    shs = [n for n in ir.walk(s_) if n.get("k") == "Bin" and n.get("op") == "<<"]
+                    for n in shs:
+                        shifts.append(minieval.ev(unwrap(n["rhs"]), env, enums))
+                    if not shs:
+                        minieval.step(u, env, enums)
+                if lp["k"] == "For" and lp.get("inc") is not None:
+                    minieval.step(unwrap(lp["inc"]), env, enums)
+                rounds += 1
             moves = len([n for n in ir.walk(lp["body"]) if decoder.is_mp_move(n)])
             ok = shifts == [8 * (want - 1 - k) for k in range(want)] and moves == 1
             run.ob(rule, key, ok, f, lp["l"],
